@@ -135,6 +135,46 @@ class Cfg:
         self.index = {bb: i for i, bb in enumerate(self.order)}
         self._cyclic = None
 
+    def bool_assignments(self):
+        """Boolean locals whose every assignment is `const true/false` or a copy/move of another such
+        local (drop flags, `let x = match .. { .. => true, .. => false }`): they are tracked exactly.
+        Returns {block: [("set"|"clear", "bool:_N") | ("copy", "bool:_N", "bool:_M")]} and the set."""
+        f = self.fn
+        cand = {l for l, t in f.locals.items() if t.strip() == "bool"}
+        assigns = {}
+        for bb, b in self.blocks.items():
+            for st in b.stmts:
+                m = re.match(r"(_\d+) = (.+);$", st)
+                if m and m.group(1) in cand:
+                    assigns.setdefault(m.group(1), []).append((bb, m.group(2).strip()))
+            if b.call and b.call[0] in cand:
+                assigns.setdefault(b.call[0], []).append((bb, "<call>"))
+        ok = set(assigns)
+        changed = True
+        while changed:
+            changed = False
+            for l in list(ok):
+                for bb, rhs in assigns[l]:
+                    if rhs in ("const true", "const false"):
+                        continue
+                    cm = re.match(r"(?:copy|move) (_\d+)$", rhs)
+                    if cm and cm.group(1) in ok:
+                        continue
+                    ok.discard(l)
+                    changed = True
+                    break
+        ops = {}
+        for l in ok:
+            for bb, rhs in assigns[l]:
+                if rhs == "const true":
+                    ops.setdefault(bb, []).append(("set", "bool:" + l))
+                elif rhs == "const false":
+                    ops.setdefault(bb, []).append(("clear", "bool:" + l))
+                else:
+                    src = re.match(r"(?:copy|move) (_\d+)$", rhs).group(1)
+                    ops.setdefault(bb, []).append(("copy", "bool:" + l, "bool:" + src))
+        return ops, ok
+
     def in_cycle(self, bb):
         """is block bb on a CFG cycle (reachable from itself)?"""
         if self._cyclic is None:
@@ -194,7 +234,29 @@ class Cfg:
 def bmc(cfg, ops, flags, init, L, timeout_ms=60000):
     """ops: dict block -> [(op, flag)], flags: list of names, init: dict flag -> bool.
     Returns (result, path) with result in {"unsat","sat","unknown"}; path = [(block, note)]."""
-    keep = set(ops) | {"bb0"}
+    # exact tracking of constant-assigned boolean locals (data correlation between a `let b = ..true/false`
+    # and a later `if b`): their assignments become flag operations, switches on them are constrained
+    bops, btracked = cfg.bool_assignments()
+    used = {b.switch_on for b in cfg.blocks.values() if b.switch_on in btracked}
+    # keep only the locals that feed a switch (directly or through copies)
+    need = set(used)
+    grew = True
+    while grew:
+        grew = False
+        for v in bops.values():
+            for o in v:
+                if o[0] == "copy" and o[1][5:] in need and o[2][5:] not in need:
+                    need.add(o[2][5:])
+                    grew = True
+    ops = {bb: list(v) for bb, v in ops.items()}
+    flags = list(flags)
+    for bb, v in bops.items():
+        keepv = [o for o in v if o[1][5:] in need]
+        if keepv:
+            ops[bb] = keepv + ops.get(bb, [])      # statements precede the block's terminator events
+    for l in sorted(need):
+        flags.append("bool:" + l)
+    keep = set(ops) | {"bb0"} | {bb for bb, b in cfg.blocks.items() if b.switch_on in need}
     nodes, csucc = cfg.compact(keep)
     index = {bb: i for i, bb in enumerate(nodes)}
     s = z3.Solver()
@@ -217,7 +279,11 @@ def bmc(cfg, ops, flags, init, L, timeout_ms=60000):
             # sequentially apply ops to symbolic flag values
             cur = {f: fl[f][t] for f in flags}
             badc = z3.BoolVal(False)
-            for op, f in ops.get(bb, []):
+            for entry in ops.get(bb, []):
+                op, f = entry[0], entry[1]
+                if op == "copy":
+                    cur[f] = cur[entry[2]]
+                    continue
                 if op == "set":
                     cur[f] = z3.BoolVal(True)
                 elif op == "clear":
@@ -228,6 +294,8 @@ def bmc(cfg, ops, flags, init, L, timeout_ms=60000):
                     badc = z3.Or(badc, z3.Not(cur[f]))
                 elif op == "bad":
                     badc = z3.BoolVal(True)
+                elif op == "copy":
+                    pass
             upd = [fl[f][t + 1] == cur[f] for f in flags]
             nxt = []
             for k, tgt in csucc[bb]:
@@ -238,6 +306,9 @@ def bmc(cfg, ops, flags, init, L, timeout_ms=60000):
                     if key not in choice:
                         choice[key] = z3.Bool("ch_%s_%s" % (b.switch_on, k))
                     c = z3.And(c, choice[key])
+                if b.switch_on in need:
+                    fv = cur["bool:" + b.switch_on]
+                    c = z3.And(c, z3.Not(fv) if k == "0" else fv)
                 nxt.append(c)
             if nxt:
                 step = z3.And(z3.Or(nxt), z3.Not(done[t + 1]))
